@@ -314,6 +314,96 @@ def gen_ck(ctx):
     return L
 
 
+
+def gw_stream(rng, ok):
+    """a chunked response body as a backend would send it (NUL-free)"""
+    out = b""
+    for _ in range(rng.randint(0, 4)):
+        n = rng.choice([1, 2, 3, 5, 10, 16, 17, 40])
+        data = bytes(rng.choice(b"ab\r\n0;X") for _ in range(n))
+        size = (b"%x" % n) if rng.random() < 0.7 else (b"%X" % n if rng.random() < 0.5 else b"0" * rng.randint(1, 3) + b"%x" % n)
+        ext = rng.choice([b"", b"", b"", b";a=b", b" ;x", b"\t", b";"]) if ok else rng.choice([b"", b"x", b" y", b"\r", b"g", b";\r"])
+        out += size + ext + b"\r\n" + data + (b"\r\n" if ok or rng.random() < 0.8 else rng.choice([b"\n", b"\r", b"\rX", b"XX", b""]))
+    last = rng.choice([b"0", b"00", b"0;x"]) if ok else rng.choice([b"0", b"", b"0x", b" 0", b"-0"])
+    tr = rng.choice([b"", b"", b"Foo: bar\r\n", b"A: b\r\nC: d\r\n", b"A: b\n"])
+    out += last + b"\r\n" + tr + (b"\r\n" if ok or rng.random() < 0.8 else b"\n")
+    if rng.random() < 0.2:
+        out += rng.choice([b"X", b"\r\n", b"0\r\n\r\n"])
+    return out
+
+
+def split_random(rng, data, k):
+    cuts = sorted(rng.sample(range(1, len(data)), min(k - 1, len(data) - 1))) if len(data) > 1 else []
+    return [data[a:b] for a, b in zip([0] + cuts, cuts + [len(data)])]
+
+
+def gen_gw(ctx):
+    """http_chunk_decode_append_data() over MANY reads: general segmentations (compared with the read-level
+    model) and dribbles that try to grow gw_dechunk->b (unterminated chunk-size lines, endless trailers)"""
+    rng = ctx.rng
+    L = ["gwd 8192 - " + C.hx(b"a" * 10) + " 3000 -",                 # C12-3: 10-byte reads, no LF, for ever
+         "gwd 8192 - " + C.hx(b"0" * 1023) + " 40 " + C.hx(b"1\r\nx")]
+    hexd = b"0123456789abcdefABCDEF"
+    for u in (1, 2, 3, 7, 64, 100, 500, 511, 512, 513, 1000, 1022, 1023, 1024, 1025):
+        for cnt in sorted(set([1, 2, 3, 1024 // u, 1024 // u + 1, 1024 // u + 2, 2048 // u + 1, min(6000, 20000 // u + 3)])):
+            for pre in (b"", b"1", b"5;", b"0"):
+                unit = bytes(rng.choice(hexd if pre != b"5;" else b"xyz=") for _ in range(u))
+                if pre == b"0":
+                    unit = b"0" * u
+                for suf in (b"", b"\r\n", b"\r\nab", b"\n"):
+                    if rng.random() < (1.0 if ctx.quick and u in (1, 7, 100, 1023) or not ctx.quick else 0.25):
+                        L.append("gwd 8192 %s %s %d %s" % (C.hx(pre), C.hx(unit), cnt, C.hx(suf)))
+    for mf in (1, 3, 4, 5, 100, 1023, 1024, 1025, 8192, 65535):
+        for unit in (b"X: y\r\n", b"Abc: defgh\r\n", b"X: y\n", b"\r\n", b"Xy", b"X" * 300 + b"\r\n", b"X" * 1023, b"X" * 2000):
+            for cnt in sorted(set([1, 2, mf // len(unit) + 1, mf // len(unit) + 3, min(4000, 2 * mf // len(unit) + 5)])):
+                for pre in (b"0\r\n", b"0;x\r\n", b"0\r", b"0"):
+                    if mf > 8192 and len(unit) < 300:
+                        continue        # (65535-byte trailer sections only in big pieces: keeps the model run short)
+                    if rng.random() < (0.35 if ctx.quick else 1.0):
+                        L.append("gwd %d %s %s %d %s" % (mf, C.hx(pre), C.hx(unit), cnt, C.hx(rng.choice([b"\r\n", b"", b"\r\n\r\n"]))))
+    n = 6000 if ctx.quick else 80000
+    for _ in range(n):
+        ok = rng.random() < 0.7
+        data = gw_stream(rng, ok)
+        if rng.random() < 0.2 and data:
+            i = rng.randrange(len(data))
+            data = data[:i] + bytes([rng.choice([9, 10, 13, 32, 59, 0x67, 0x30, 0x66, 0x80, 0xff])]) + data[i + 1:]
+        if rng.random() < 0.2 and len(data) > 1:
+            data = data[:rng.randrange(1, len(data))]
+        segs = split_random(rng, data, rng.choice([1, 2, 2, 3, 5, 9, len(data)]))
+        L.append("gws %d %s" % (rng.choice([8192, 8192, 16, 40, 3]), " ".join(C.hx(x) for x in segs)))
+    for d in [b"1\r\na\r\n0\r\n\r\n", b"2;x\r\nab\r\n0\r\n\r\n"[:13], b"0\r\nA:b\r\n\r\n", b"a\r\n0123456789\r\n0\r\n\r\n"[:12], b"1\na\r\n0\r\n\r\n"]:
+        d = d[:11] if ctx.quick else d[:13]
+        for mask in range(1 << (len(d) - 1)):
+            segs, cur = [], d[:1]
+            for i in range(1, len(d)):
+                if mask >> (i - 1) & 1:
+                    segs.append(cur); cur = b""
+                cur += d[i:i + 1]
+            segs.append(cur)
+            L.append("gws 8192 " + " ".join(C.hx(x) for x in segs))
+    return L
+
+
+def gen_h1d(ctx):
+    """h1_chunked() over MANY reads: partial chunk-size lines and trailer sections held in the read queue"""
+    rng = ctx.rng
+    L = []
+    hexd = b"0123456789abcdef"
+    for u in (1, 7, 100, 511, 1023, 1024):
+        for cnt in sorted(set([1, 2, 1024 // u, 1024 // u + 1, 1024 // u + 2, min(5000, 12000 // u + 3)])):
+            for pre in (b"", b"1", b"5;"):
+                unit = bytes(rng.choice(hexd if pre != b"5;" else b"xyz=") for _ in range(u))
+                for suf in (b"", b"\r\n", b"\r\nab"):
+                    L.append("h1d 0 8192 %s %s %d %s" % (C.hx(pre), C.hx(unit), cnt, C.hx(suf)))
+    for mf in (1, 100, 1024, 8192, 65535):
+        for unit in (b"X: y\r\n", b"Abc: defgh\r\n", b"Xy", b"X" * 300 + b"\r\n", b"X" * 1023):
+            for cnt in sorted(set([1, 2, mf // len(unit) + 1, mf // len(unit) + 3, min(4000, 2 * mf // len(unit) + 5)])):
+                for pre in (b"0\r\n", b"5\r\nhello\r\n0\r\n", b"0\r"):
+                    L.append("h1d %d %d %s %s %d %s" % (rng.choice([0, 0, 1]), mf, C.hx(pre), C.hx(unit), cnt, C.hx(rng.choice([b"\r\n", b"", b"\r\n\r\n"]))))
+    return L
+
+
 def gen_hoff(ctx):
     rng = ctx.rng
     L = []
@@ -696,6 +786,14 @@ def gen_h2f(ctx):
     L.append("h2f 8192 " + C.hx(fr(4, 0, 0, struct.pack(">HI", 5, 2 ** 24 - 1)) + fr(1, 5, 1, HP_GET + b"\x90" * 70000)))
     for i in range(1, 40):
         L.append("h2f 8192 " + C.hx(fr(4, 0, 0, b"") + b"".join(fr(1, 5, 1 + 2 * j, HP_GET) + fr(3, 0, 1 + 2 * j, b"\0\0\0\x08") for j in range(i))))
+    # HEADERS without END_HEADERS followed by CONTINUATION frames that arrive in MANY small reads and never end
+    for flen, nfr, piece in ((0, 7000, 9), (1, 6000, 10), (5, 4500, 7), (20, 2400, 29), (100, 700, 50), (1000, 80, 333),
+                             (16384, 6, 1000), (16384, 6, 16393), (3, 5000, 12), (9, 3000, 18)):
+        if ctx.quick and rng.random() < 0.3:
+            continue
+        data = fr(4, 0, 0, b"") + fr(1, 0, 1, HP_GET[:2]) + b"".join(fr(9, 0, 1, b"\x90" * flen) for _ in range(nfr))
+        segs = [data[i:i + piece] for i in range(0, len(data), piece)][:16000]
+        L.append("h2f 8192 " + " ".join(C.hx(x) for x in segs))
     return L
 
 
@@ -900,6 +998,21 @@ def oracle(line, out):
             if v and te + moved != v + 2 and te != 0:
                 return "chunk counter inconsistent with the parsed size (size+2 != remaining+consumed)"
         return None
+    if op in ("gwd", "gws"):
+        o = kv(out)
+        mf = int(t[1])
+        if int(o["maxp"]) > 1024:
+            return "gateway chunk decoder buffered more than 1024 bytes of an unterminated chunk-size line"
+        if int(o["maxh"]) > max(1024, mf) + 4:
+            return "gateway chunk decoder header/trailer buffer grew beyond its limit (max(1024, max-request-field-size)+4)"
+        if not (0 <= int(o["te"]) <= I64MAX):
+            return "chunk remaining-length counter negative / out of range"
+        return None
+    if op == "h1d":
+        o = kv(out)
+        if int(o["maxrest"]) > max(1024, int(t[2])):
+            return "h1_chunked left more than max(1024, max-request-field-size) unconsumed bytes in the read queue"
+        return None
     if op == "hoff":
         hlen, cnt, maxidx, _, tail = out.split(" ")
         blk = C.unhx(t[2])
@@ -963,6 +1076,12 @@ def oracle(line, out):
             return "more than 8 concurrent streams"
         if not (16384 <= int(o["fsize"]) <= 16777215):
             return "negotiated max frame size outside [2^14, 2^24-1]"
+        if "rq" in o:
+            raw = "".join(t[2:])
+            fs = [int(raw[i + 4:i + 12], 16) for i in range(0, max(0, len(raw) - 11), 2) if raw[i:i + 4] == "0005"]
+            fmax = max([16384] + [v for v in fs if v <= 16777215])
+            if int(o["rq"]) > max(65536 + 9, 9 + fmax):
+                return "h2 read queue kept more than one frame / 64 KiB of HEADERS+CONTINUATION while waiting for data"
         w = int(o["wq"].split(":")[0])
         total_in = sum(len(C.unhx(x)) for x in t[2:])
         if w > 65536 + 17 * 64 + 13 * (total_in // 9 + 2) * 2:
@@ -1026,6 +1145,13 @@ def classify(line, out):
         data = C.unhx(t[-1])
         v, nd, ovf = ck_ref(data)
         return "%s:bits%d:%s:%s" % (op, v.bit_length() // 4 * 4, "ovf" if ovf else "n", out.split(" ")[0] + (out.split(" ")[1] if out.startswith("err ") else ""))
+    if op in ("gwd", "gws"):
+        o = kv(out)
+        return "%s:mf%d:%s:done%s:h%d:n%d" % (op, min(int(t[1]).bit_length(), 14), o.get("rc"), o.get("done"),
+                                              int(o.get("maxh", "0")).bit_length(), min(int(o.get("n", "0")).bit_length(), 13))
+    if op == "h1d":
+        return "h1d:mf%d:%s:r%d" % (int(t[2]).bit_length(), out.split(" ")[0] + (out.split(" ")[1] if out.startswith("err") else ""),
+                                    int(kv(out).get("maxrest", "0")).bit_length())
     if op == "hoff":
         hlen, cnt, maxidx, _, _ = out.split(" ")
         return "hoff:%s:cnt%d:len%d" % ("term" if hlen != "0" else "open", min(int(cnt), 8191) // 1024, min(int(hlen).bit_length(), 18))
@@ -1078,14 +1204,14 @@ def build_all(ctx):
 
 def harness_of(line):
     op = line.split(" ", 1)[0]
-    if op in ("s64", "ck1", "ck2", "hoff", "rng", "buf", "ckr"):
+    if op in ("s64", "ck1", "ck2", "hoff", "rng", "buf", "ckr", "gwd", "gws", "h1d"):
         return "h_arith"
     if op in ("h2f", "h2c", "h2h", "h2d", "prio"):
         return "h_arith_h2"
     return "h_arith_px"
 
 
-MODELLED = ("s64", "ck1", "ck2", "hoff", "buf", "ckr", "h2c", "h2d")
+MODELLED = ("s64", "ck1", "ck2", "hoff", "buf", "ckr", "h2c", "h2d", "gwd", "gws")
 
 
 def run(ctx):
@@ -1095,6 +1221,8 @@ def run(ctx):
     a, h2, px = exes["h_arith"], exes["h_arith_h2"], exes["h_arith_px"]
     stream(ctx, "strtoint64(li_restricted_strtoint64)", [a], "arith", gen_s64(ctx), oracle, classify)
     stream(ctx, "chunk-size(h1_chunked,http_chunk_decode)", [a], "arith", gen_ck(ctx), oracle, classify)
+    stream(ctx, "gw-dechunk-multiread(http_chunk_decode_append_data)", [a], "arith", gen_gw(ctx), oracle, classify)
+    stream(ctx, "explore:h1-chunked-multiread(h1_chunked)", [a], None, gen_h1d(ctx), oracle, classify)
     stream(ctx, "hoff(http_header_parse_hoff)", [a], "arith", gen_hoff(ctx), oracle, classify)
     # (http_range.c is modelled for C15 in Model/Range.lean and tied to the C by C15's own correspondence; here
     #  the parser runs on an exact-size heap `off_t ranges[RMAX*2]` under the sanitizers + the bounds oracle)
